@@ -64,8 +64,8 @@ def multifile_ignores(npk=6, nfiles=4):
             for i, l in enumerate(ls, 1):
                 if l in ("\tt.F = 3",):
                     expect.add((fn, i, "IMM01"))
-                if l in ("\t_ = &T{}",):
-                    expect.add((fn, i, "CTOR01"))
+                # (CTOR01 at `_ = &T{}` is excluded by flag in every run of this check: a run in which it shows has
+                #  analysed that package under another configuration than the one given)
     return files, expect
 
 
@@ -122,7 +122,9 @@ def run(ctx):
         p = os.path.join(root, rel)
         os.makedirs(os.path.dirname(p), exist_ok=True)
         open(p, "w").write(text)
-    flags = worlds.cfg_flags((True, ["testdata"], []))      # test files are analysed: test variants of packages take part
+    # test files are analysed (test variants of packages take part) and a check is excluded by flag: a non-default
+    # configuration that every action of every package must see, however the actions are scheduled
+    flags = worlds.cfg_flags((True, ["testdata"], ["TONL02", "PKGO03", "CTOR01"]))
     all_dirs = sorted({os.path.relpath(dp, root) for dp, _, fs in os.walk(root) if any(f.endswith(".go") for f in fs)})
     pats_all = ["./" + x for x in all_dirs]
     runs = []
@@ -169,6 +171,8 @@ def run(ctx):
     for wid in wids[: (3 if not thorough else 10)]:
         sub.append(("only ./%s/..." % wid, flags, ["./%s/..." % wid], wid + "/"))
     sub.append(("only ./hot/h3/... (its dependency hb unnamed)", flags, ["./hot/h3/..."], "hot/h3/"))
+    for k in (0, 3, 5):      # leaf packages named alone: nothing else is scheduled before their actions
+        sub.append(("only ./mf/p%d" % k, flags, ["./mf/p%d" % k], "mf/p%d/" % k))
     sub.append(("only ./tv/kv/... (test variants, without the other importer)", flags, ["./tv/kv/..."], "tv/kv/"))
     sub.append(("only ./tv/usekv/...", flags, ["./tv/usekv/..."], "tv/usekv/"))
     for name, fl, pats, prefix in sub:
